@@ -76,6 +76,22 @@ def dstep0 (s : Unit) (toks : List String) : Unit × String :=
       match parsePath cs with
       | some es => "ok " ++ pathOut es
       | none => "err"
+  | ["parsenr", t] =>
+    -- a node resolver that finds nothing: only `/` and `.` elements can be built
+    match strTok? t with
+    | none => "bad-op"
+    | some cs =>
+      match parsePathWith { current with noResolver := true } cs with
+      | some es => "ok " ++ pathOut es
+      | none => "err"
+  | ["elem", t] =>
+    -- `RelativePathElement::from_str` called directly on a whole text (no tokenizer)
+    match strTok? t with
+    | none => "bad-op"
+    | some cs =>
+      match parseElem current cs with
+      | some e => "ok " ++ elemOut e
+      | none => "err"
   | _ => "bad-op")
 
 
@@ -99,7 +115,7 @@ def armsTarget (t : List Char) : List String :=
 
 def armsBracket (cs : List Char) : List String :=
   match bracket current cs with
-  | none => ["br-fail"]
+  | none => []   -- not reachable: `armsElem` passes the text after the `<` at which the bracket matched
   | some b =>
     [match b.subtypes, b.inverse with
      | true, false => "fl-none" | false, false => "fl-hash" | true, true => "fl-bang" | false, true => "fl-hashbang"] ++
@@ -121,6 +137,13 @@ def armsBracket (cs : List Char) : List String :=
        | some d => (parseUnsigned 65535 d).getD 0
      if ns = 0 then (if (lookupId name nameToId).isSome then ["res-std"] else ["res-str-ns0"]) else ["res-str-nsN"])
 
+/-- the text after the first `<` at which the bracket alternative matches (where an `.angle` capture starts) -/
+def afterMatchingAngle : List Char → Option (List Char × Bool)
+  | [] => none
+  | c :: r =>
+    if c = '<' ∧ (bracket current r).isSome then some (r, false)
+    else (afterMatchingAngle r).map fun (x, _) => (x, true)
+
 def armsElem (tok : List Char) : List String :=
   match elemRe current tok with
   | none => ["el-nomatch"]
@@ -136,9 +159,9 @@ def armsElem (tok : List Char) : List String :=
      | .dot => ["el-dot"]
      | .angle _ =>
        -- the text after the `<` at which the match starts
-       "el-angle" :: (match tok.dropWhile (· ≠ '<') with
-         | _ :: r => armsBracket r
-         | [] => [])) ++
+       "el-angle" :: (match afterMatchingAngle tok with
+         | some (r, later) => (if later then ["el-angle-not-at-start"] else []) ++ armsBracket r
+         | none => [])) ++
     armsTarget target ++ (if (parseElem current tok).isSome then ["el-ok"] else ["el-err"])
 
 /-- the tokenizer loop with tags (mirrors `tokLoop`) -/
@@ -209,6 +232,10 @@ def armsOf (toks : List String) : List String :=
       | some text => armsText text
       | none => [])
   | ["parse", t] => (strTok? t).elim [] armsText
+  | ["parsenr", t] => (strTok? t).elim [] fun cs =>
+      [if (parsePathWith { current with noResolver := true } cs).isSome then "nr-ok"
+       else if (parsePath cs).isSome then "nr-err-unresolved" else "nr-err-syntax"]
+  | ["elem", t] => (strTok? t).elim [] fun cs => "elem-direct" :: armsElem cs
   | _ => []
 
 def dstep (s : Unit) (toks : List String) : Unit × String :=
